@@ -42,8 +42,9 @@ def setcols_complete(ctx, py, rule="PY-SETCOLS"):
     for qn, fn in m.funcs.items():
         cls = qn.split(".")[0]
         for c in ast.walk(fn):
-            if not (isinstance(c, ast.Call) and isinstance(c.func, ast.Attribute) and c.func.attr == "set_columns"):
+            if not (isinstance(c, ast.Call) and isinstance(c.func, ast.Attribute) and c.func.attr in ("set_columns", "append_columns")):
                 continue
+            meth = c.func.attr
             recv = dotted(c.func.value)
             if recv is None:
                 continue
@@ -55,10 +56,10 @@ def setcols_complete(ctx, py, rule="PY-SETCOLS"):
                 missing = [w for w in want if w not in have]
                 ok = star or not missing
                 n += 1
-                ctx.ob(rule, "%s|%s" % (qn, parts[1]), ok, m.loc(c),
-                       "all columns passed" if ok else "self.%s.set_columns(...) omits %s: these columns are emptied" % (parts[1], missing))
+                ctx.ob(rule, "%s|%s|%s" % (qn, parts[1], meth), ok, m.loc(c),
+                       "all columns passed" if ok else "self.%s.%s(...) omits %s: these columns are emptied" % (parts[1], meth, missing))
             elif recv == "self" and cls in cols or (recv == "self" and cls in ("BaseTable", "MetadataTable")):
-                if qn.endswith(".set_columns"):
+                if qn.endswith(".set_columns") or meth != "set_columns":
                     continue
                 star = [k for k in c.keywords if k.arg is None]
                 n += 1
@@ -542,3 +543,47 @@ def always_raises(ctx, py, mod, qual, rule="PY-ALWAYS-RAISES"):
     ok = not rets and terminates(fn.body)
     ctx.ob(rule, "%s.%s" % (mod, qual), ok, m.loc(rets[0] if rets else fn),
            "every path raises" if ok else "%s can return normally: callers' except-blocks then fall through and load() returns None" % qual)
+
+
+# =============================================================================================
+HALFOPEN = [
+    # (module, function, attribute compared, bound name, required operator, meaning)
+    ("tables", "TableCollection.keep_intervals", "position", "s", "GtE", "site kept iff s <= position"),
+    ("tables", "TableCollection.keep_intervals", "position", "e", "Lt", "site kept iff position < e (intervals are half-open)"),
+    ("tables", "TableCollection.keep_intervals", "right", "s", "LtE", "edge/migration dropped iff right <= s"),
+    ("tables", "TableCollection.keep_intervals", "left", "e", "GtE", "edge/migration dropped iff left >= e"),
+    ("tables", "TableCollection.ltrim", "position", "leftmost", "Lt", "sites strictly left of the first edge are deleted"),
+    ("tables", "TableCollection.rtrim", "position", "rightmost", "GtE", "sites at or right of the last edge end are deleted"),
+]
+
+
+def half_open(ctx, py, rule="PY-HALFOPEN"):
+    ctx.rule(rule, "interval membership in the Python editors is half-open [s, e) everywhere: the comparison operator used for "
+                   "each (coordinate attribute, interval bound) pair is the one the half-open convention dictates, so sites and "
+                   "edges are clipped consistently")
+    n = 0
+    for mod, qual, attr, bound, op, why in HALFOPEN:
+        m = py.mod(mod)
+        fn = py.func(mod, qual)
+        found = []
+        for c in ast.walk(fn):
+            if isinstance(c, ast.Compare) and len(c.ops) == 1:
+                l, r = c.left, c.comparators[0]
+                la = l.attr if isinstance(l, ast.Attribute) else None
+                rn = r.id if isinstance(r, ast.Name) else None
+                if la == attr and rn == bound:
+                    found.append((type(c.ops[0]).__name__, c))
+                # reversed operand order
+                ra = r.attr if isinstance(r, ast.Attribute) else None
+                ln = l.id if isinstance(l, ast.Name) else None
+                if ra == attr and ln == bound:
+                    flip = {"Lt": "Gt", "Gt": "Lt", "LtE": "GtE", "GtE": "LtE"}
+                    found.append((flip.get(type(c.ops[0]).__name__, type(c.ops[0]).__name__), c))
+        n += 1
+        if not found:
+            ctx.ob(rule, "%s|%s~%s" % (qual, attr, bound), False, m.loc(fn), "no comparison of .%s with %s found (%s)" % (attr, bound, why))
+            continue
+        bad = [f for f in found if f[0] != op]
+        ctx.ob(rule, "%s|%s~%s" % (qual, attr, bound), not bad, m.loc((bad or found)[0][1]),
+               "%s: .%s %s %s" % (why, attr, op, bound) if not bad else "%s compared with %s using %s, but %s requires %s" % (attr, bound, bad[0][0], why, op))
+    return n
